@@ -114,6 +114,7 @@ pub fn finish(ctx: &Ctx, acc: Acc, level: &str, mut coverage: Value, assumptions
 
 // ---- panic capture ----
 use std::cell::RefCell;
+static FIRST_UNGUARDED: std::sync::Mutex<Option<(String, String)>> = std::sync::Mutex::new(None);
 thread_local! { static LAST_PANIC: RefCell<Option<(String, String)>> = RefCell::new(None); static IN_CATCH: std::cell::Cell<u32> = std::cell::Cell::new(0); }
 pub fn install_panic_hook() {
     std::panic::set_hook(Box::new(|info| {
@@ -123,7 +124,11 @@ pub fn install_panic_hook() {
         // keep the first line only (anyhow errors print a backtrace after it when RUST_BACKTRACE is set)
         let msg: String = msg.lines().next().unwrap_or("").chars().take(240).collect();
         let loc = format!("{loc}\u{1}{site}");
-        if IN_CATCH.with(|c| c.get()) == 0 { eprintln!("MACHINERY: harness panic outside a guarded call at {loc}: {msg}"); }
+        if IN_CATCH.with(|c| c.get()) == 0 {
+            eprintln!("NOTE: panic outside a guarded call at {}: {msg}", loc.replace('\u{1}', " "));
+            // worker threads: remember the first such panic so that the driver-level guard can name its site
+            if let Ok(mut g) = FIRST_UNGUARDED.lock() { if g.is_none() { *g = Some((loc.clone(), msg.clone())) } }
+        }
         LAST_PANIC.with(|p| *p.borrow_mut() = Some((loc, msg)));
     }));
 }
@@ -161,7 +166,7 @@ pub fn catch<T>(f: impl FnOnce() -> T) -> Result<T, Panic> {
     IN_CATCH.with(|c| c.set(c.get() - 1));
     match r {
         Ok(v) => Ok(v),
-        Err(_) => { let (loc, msg) = LAST_PANIC.with(|p| p.borrow_mut().take()).unwrap_or(("?\u{1}?".into(), "?".into())); let (l, s) = loc.split_once('\u{1}').map(|(a, b)| (a.to_string(), b.to_string())).unwrap_or((loc.clone(), loc.clone())); Err(Panic { loc: l, site: s, msg }) }
+        Err(_) => { let (loc, msg) = LAST_PANIC.with(|p| p.borrow_mut().take()).or_else(|| FIRST_UNGUARDED.lock().ok().and_then(|mut g| g.take())).unwrap_or(("?\u{1}?".into(), "?".into())); let (l, s) = loc.split_once('\u{1}').map(|(a, b)| (a.to_string(), b.to_string())).unwrap_or((loc.clone(), loc.clone())); Err(Panic { loc: l, site: s, msg }) }
     }
 }
 
